@@ -89,6 +89,7 @@ func faultOpts(prop string, thorough bool) (GenOpts, faultEmphasis) {
 		em.ConnPhase = 10
 		em.MaxFaults = 3
 		o.BigOffsets = true
+		o.OddNames = true
 		o.MaxFiles = 3
 		o.UnitWeights[uRotate] = 3
 	case "C17":
@@ -567,12 +568,32 @@ func checkC15(r *Run) []Violation {
 		}
 		d := att.Master.Dumps[0]
 		start := Pos{d.File, int64(d.Offset)}
-		exp, ok := h.Model(start)
+		exp, poison, ok := h.ModelP(start)
 		if !ok {
 			continue
 		}
 		if att.StreamPanic != "" {
 			return []Violation{{"C15", "panic", firstLine(att.StreamPanic), i}}
+		}
+		benign := att.Plan.Stop == stopNone || att.Plan.Stop == stopEOF
+		for _, c := range att.Causes {
+			benign = benign && (c == "cancel" || c == "eof-packet")
+		}
+		if poison >= 0 && benign && !att.Hang {
+			pu := h.Units[poison]
+			if att.PoisonDelivered || att.StreamErr != nil {
+				if att.StreamErr == nil {
+					vs = append(vs, Violation{"C15", "mismatch-accepted", fmt.Sprintf("a cached table id was re-announced with a different column count (unit %d, %s) and its rows reached the client; Stream returned nil", poison, pu.Desc), i})
+				}
+				for k, c := range att.Calls {
+					if c.Snap != nil && c.Snap.Next == pu.Tx.Next {
+						vs = append(vs, Violation{"C15", "mismatch-accepted", fmt.Sprintf("delivery %d is the transaction whose table map disagrees with the mapper's column count", k), i})
+					}
+				}
+				if len(att.Calls) > len(exp) {
+					vs = append(vs, Violation{"C15", "mismatch-accepted", fmt.Sprintf("%d deliveries, only %d precede the column-count change", len(att.Calls), len(exp)), i})
+				}
+			}
 		}
 		miscount := hasCause(att, "mapper-miscount")
 		for k, c := range att.Calls {
